@@ -26,6 +26,7 @@ package plugin
 //@   ensures#valid err == nil ==> validname(name)                                                          [C09 C17]
 //@   ensures#nil err != nil ==> name == "" && data == nil                                                  [C09 C14 C17]
 //@   ensures#ascii err == nil ==> (forall j in 0..len(s) :: 33 <= at(s, j) && at(s, j) <= 126)              [C09]
+//@   ensures#name err == nil ==> hasprefix(s, "AGE-PLUGIN-") && len(s) >= len(name) + 13 && (forall j in 0..len(name) :: at(name, j) == lowerc(at(s, 11 + j))) && at(s, 11 + len(name)) == 45 && at(s, 12 + len(name)) == 49   [C09 C17]
 
 //@ func ParseRecipient(s) (name, data, err)
 //@   ensures#valid err == nil ==> validname(name)                                                          [C09 C17]
